@@ -564,17 +564,17 @@ def gen_session(chk, rng, idx, big=False):
             n = min(size_for(xy), 1100)
             entries = single_bit_table(rng) if (n == 24 and rng.random() < 0.8) else rand_entries(rng, n)
             ses.load_entries(xy, app, entries, via_context=rng.random() < 0.2)
-        elif r < 0.65:
+        elif r < 0.7:
             some = rng.sample(chips, rng.randint(1, len(chips)))
             tables = OrderedDict((c, rand_entries(rng, min(size_for(c), 300) if not big else size_for(c))) for c in some)
             ses.load_tables(tables, app)
-        elif r < 0.85:
+        elif r < 0.82:
             ses.get(xy)
         else:
             ses.clear(xy, rng.choice(apps + [17, 200]))
         for c in chips:       # bookkeeping for the generator only: how much is free now (sizes near the limit)
             free[c] = ses.sim.chips[c].largest_free_rtr_block()
-    if rng.random() < 0.7:
+    if rng.random() < 0.4:
         ses.get(rng.choice(chips))
     return ses.finish()
 
@@ -671,13 +671,18 @@ def run(chk):
         chk.note_case((e[1], e[2]), nontrivial=len(e[1]) > 1 or len(e[1][0]["nodes"]) > 1)
     # ---- (ii)
     straces = fixed_sessions()
-    nses = chk.pick(140, 1500)
+    nses = chk.pick(120, 1500)
     for i in range(nses):
-        straces.append(gen_session(chk, rng, i, big=(i % chk.pick(28, 20) == 0)))
+        straces.append(gen_session(chk, rng, i, big=(i % 30 == 0)))
+    alone = [0] * 24
     for t in straces:
         for e in t["ev"]:
             if e[0] == "load":
                 n = sum(len(c[2]) for c in e[2])
+                for c in e[2]:
+                    for g in c[2]:
+                        if len(g[4]) == 1:
+                            alone[g[4][0]] += 1
                 chk.note_case(("load", e[1], e[2]), nontrivial=n > 0)
                 chk.count("entries given to load calls", n)
                 if any(len(c[2]) >= 1000 for c in e[2]):
@@ -689,6 +694,7 @@ def run(chk):
                 chk.note_case(("get", e[3]), nontrivial=bool(e[3]))
             elif e[0] == "cleared":
                 chk.count("clear calls")
+    chk.extra["entries_given_with_a_single_route_bit_per_bit_0_to_23"] = alone
     chk.rule = ("(i) %d hand-shaped sets of RoutingTree objects (fixed shapes: chain, branching, no-route leaves, copies, "
                 "feeders, strict super-/subsets of exits in both orders, near-miss keys, star with all 24 routes; random: "
                 "trees of 1-9 nodes on tori up to 8x8 with core / link / no-route leaves, a second tree that is a copy, a "
@@ -717,8 +723,8 @@ def run(chk):
     chk.sample(ttraces[nhand // 2])
     chk.sample(dict(min(straces, key=lambda t: len(str(t))), note="smallest session"))
     chk.validate("RouterLoadTrace", "RouterLoadTrace.cfg", ttraces, key_of=describe, batch=4000, label="tables")
-    # big sessions last longer in TLC: spread them over the batches
-    chk.validate("RouterLoadTrace", "RouterLoadTrace.cfg", straces, key_of=describe, batch=chk.pick(400, 400),
+    # the JSON of a batch costs TLC about 150 times its size in heap
+    chk.validate("RouterLoadTrace", "RouterLoadTrace.cfg", straces, key_of=describe, batch=150, heap="14g",
                  label="sessions")
 
 
